@@ -205,6 +205,15 @@ class C16(fw.Prop):
                 b = bytearray(base)
                 b[pos] = val
                 yield mk({"op": "dec", "b": bytes(b).hex()})
+        # the same sweeps around other values: midnight sharp at the end of a month, hundredths not specified, the last instant of
+        # a year with the deviation not specified (a field out of range is refused whatever the other fields are)
+        for other in ("07e4011fff0000000000 3c00", "07e4011fff000000ffffc480", "07e40c1fff173b3b63800080", "07e4021d07000000008000ff"):
+            ob = bytes.fromhex(other.replace(" ", ""))
+            for pos in range(12):
+                for val in (range(256) if (deep or pos in (4, 5)) else list(range(0, 70)) + [99, 100, 101, 127, 128, 253, 254, 255]):
+                    b = bytearray(ob)
+                    b[pos] = val
+                    yield mk({"op": "dec", "b": bytes(b).hex()})
         for dev in list(range(-900, 901, 1 if deep else 13)) + [-32768, 32767, -841, -840, 840, 841, 0]:
             b = bytearray(base)
             b[9:11] = (dev % 65536).to_bytes(2, "big")
